@@ -2251,6 +2251,77 @@ proof fn lemma_ip_kept_rak(a: State, b: State, o: State)
   ensures ip_kept(b, o)
 {}
 
+
+// ---- absorbed keys across a key press (C08) ----
+// o: state at entry of newly_press; st: state before the final `input_pressed_keys.push(k)`
+spec fn c08_pre(o: State, st: State, k: KeyCode, m: Mapping) -> bool {
+  &&& (forall|a: KeyCode| #[trigger] m.absorbing@.contains(a) ==> st.mapped_absorbed_keys@.contains(a))
+  &&& (m.absorbing@.len() > 0 ==> st.absorbing_trigger == Some(k))
+  &&& (if has_action(m.to@) && o.absorbing_trigger != Some(k) {
+         (forall|d: KeyCode| #[trigger] o.mapped_absorbed_keys@.contains(d) && d != k ==> !st.input_pressed_keys@.contains(d) && !st.pass_through_keys@.contains(d))
+         && (forall|x: KeyCode| #[trigger] st.mapped_absorbed_keys@.contains(x) ==> m.absorbing@.contains(x)) && (m.absorbing@.len() == 0 ==> st.absorbing_trigger is None)
+       } else {
+         (forall|x: KeyCode| #[trigger] o.mapped_absorbed_keys@.contains(x) && x != k ==> st.mapped_absorbed_keys@.contains(x)) && (m.absorbing@.len() == 0 ==> st.absorbing_trigger == o.absorbing_trigger)
+       })
+}
+// the same for the final state (k has been appended to the pressed list), plus the no-firing cases
+spec fn c08_np(o: State, st: State, k: KeyCode, fired: Option<Mapping>, ment: bool) -> bool {
+  match fired {
+    Some(m) => c08_pre(o, st, k, m),
+    None => if ment || is_mod(k) {
+        // nothing is lifted: the absorbed list only loses the pressed key, the trigger is untouched
+        (forall|x: KeyCode| #[trigger] o.mapped_absorbed_keys@.contains(x) && x != k ==> st.mapped_absorbed_keys@.contains(x)) && st.absorbing_trigger == o.absorbing_trigger
+        && (forall|x: KeyCode| #[trigger] st.mapped_absorbed_keys@.contains(x) ==> o.mapped_absorbed_keys@.contains(x) && x != k)
+      } else {
+        // a non-modifier key is passed through: everything absorbed is lifted and forgotten
+        st.mapped_absorbed_keys@.len() == 0 && st.absorbing_trigger is None
+        && (forall|d: KeyCode| #[trigger] o.mapped_absorbed_keys@.contains(d) && d != k ==> !st.input_pressed_keys@.contains(d) && !st.pass_through_keys@.contains(d))
+      },
+  }
+}
+spec fn c08_gone(o: State, st: State, k: KeyCode) -> bool { forall|d: KeyCode| #[trigger] o.mapped_absorbed_keys@.contains(d) && d != k ==> !st.input_pressed_keys@.contains(d) && !st.pass_through_keys@.contains(d) }
+proof fn lemma_c08_gone_rak(o: State, a: State, b: State, k: KeyCode)
+  requires forall|x: KeyCode| a.mapped_absorbed_keys@.contains(x) <==> (o.mapped_absorbed_keys@.contains(x) && x != k),
+    forall|d: KeyCode| #[trigger] a.mapped_absorbed_keys@.contains(d) ==> !b.input_pressed_keys@.contains(d) && !b.pass_through_keys@.contains(d)
+  ensures c08_gone(o, b, k)
+{
+  assert forall|d: KeyCode| #[trigger] o.mapped_absorbed_keys@.contains(d) && d != k implies !b.input_pressed_keys@.contains(d) && !b.pass_through_keys@.contains(d) by { assert(a.mapped_absorbed_keys@.contains(d)); }
+}
+proof fn lemma_c08_gone_push(o: State, a: State, b: State, k: KeyCode)
+  requires c08_gone(o, a, k), b.input_pressed_keys@ == a.input_pressed_keys@, b.pass_through_keys@ == a.pass_through_keys@.push(k)
+  ensures c08_gone(o, b, k)
+{ lemma_push_contains(a.pass_through_keys@, k); }
+proof fn lemma_c08_final_hit(o: State, pre: State, st: State, k: KeyCode, g: Seq<Mapping>)
+  requires exists|i: int| is_fired(g, o, k, i) && c08_pre(o, pre, k, #[trigger] g[i]),
+    st.input_pressed_keys@ == pre.input_pressed_keys@.push(k), st.pass_through_keys@ == pre.pass_through_keys@, st.mapped_absorbed_keys@ == pre.mapped_absorbed_keys@, st.absorbing_trigger == pre.absorbing_trigger,
+  ensures forall|i: int| is_fired(g, o, k, i) ==> c08_np(o, st, k, Some(#[trigger] g[i]), false)
+{
+  let a = choose|i: int| is_fired(g, o, k, i) && c08_pre(o, pre, k, #[trigger] g[i]);
+  lemma_push_contains(pre.input_pressed_keys@, k);
+  assert forall|i: int| is_fired(g, o, k, i) implies c08_np(o, st, k, Some(#[trigger] g[i]), false) by { lemma_fired_unique(g, o, k, a, i); }
+}
+proof fn lemma_c08_final_keep(o: State, pre: State, st: State, k: KeyCode, ment: bool)
+  requires ment || is_mod(k), forall|x: KeyCode| pre.mapped_absorbed_keys@.contains(x) <==> (o.mapped_absorbed_keys@.contains(x) && x != k), pre.absorbing_trigger == o.absorbing_trigger,
+    st.mapped_absorbed_keys@ == pre.mapped_absorbed_keys@, st.absorbing_trigger == pre.absorbing_trigger,
+  ensures c08_np(o, st, k, None, ment)
+{}
+proof fn lemma_c08_final_clear(o: State, pre: State, st: State, k: KeyCode)
+  requires !is_mod(k), pre.mapped_absorbed_keys@.len() == 0, pre.absorbing_trigger is None, c08_gone(o, pre, k),
+    st.input_pressed_keys@ == pre.input_pressed_keys@.push(k), st.pass_through_keys@ == pre.pass_through_keys@, st.mapped_absorbed_keys@ == pre.mapped_absorbed_keys@, st.absorbing_trigger == pre.absorbing_trigger,
+  ensures c08_np(o, st, k, None, false)
+{ lemma_push_contains(pre.input_pressed_keys@, k); }
+proof fn lemma_c08_pre(o: State, pre: State, st: State, k: KeyCode, m: Mapping)
+  requires c08_anm(pre, st, k, m), pre.absorbing_trigger == o.absorbing_trigger,
+    forall|x: KeyCode| pre.mapped_absorbed_keys@.contains(x) <==> (o.mapped_absorbed_keys@.contains(x) && x != k),
+  ensures c08_pre(o, st, k, m)
+{
+  if has_action(m.to@) && o.absorbing_trigger != Some(k) {
+    assert forall|d: KeyCode| #[trigger] o.mapped_absorbed_keys@.contains(d) && d != k implies !st.input_pressed_keys@.contains(d) && !st.pass_through_keys@.contains(d) by { assert(pre.mapped_absorbed_keys@.contains(d)); }
+  } else {
+    assert forall|x: KeyCode| #[trigger] o.mapped_absorbed_keys@.contains(x) && x != k implies st.mapped_absorbed_keys@.contains(x) by { assert(pre.mapped_absorbed_keys@.contains(x)); }
+  }
+}
+
 //@ C01 C02 C03 C05 C08 C09 C14 C19 | default: fn newly_press
 fn newly_press(mapper: &mut Mapper, k: KeyCode) -> (res: StepResult)
   requires
@@ -2289,6 +2360,9 @@ fn newly_press(mapper: &mut Mapper, k: KeyCode) -> (res: StepResult)
     forall|x: KeyCode| #[trigger] final(mapper).state.input_pressed_keys@.contains(x) ==> old(mapper).state.input_pressed_keys@.contains(x) || x == k,
     //@ C03 C05 C08 | a key that is considered pressed and is not absorbed stays considered pressed
     ip_kept(final(mapper).state, old(mapper).state),
+    //@ C08 | absorbed keys across a press: the pressed key itself stops being absorbed; the fired mapping's absorbing list is absorbed with the pressed key as trigger; when a non-modifier key goes onto the virtual keyboard and the pressed key is not the absorbing trigger, every key absorbed before is lifted and forgotten; otherwise the absorbed keys stay absorbed
+    forall|i: int| is_fired(group(old(mapper).layout, k), old(mapper).state, k, i) ==> c08_np(old(mapper).state, final(mapper).state, k, Some(#[trigger] group(old(mapper).layout, k)[i]), false),
+    none_fired(group(old(mapper).layout, k), old(mapper).state, k) ==> c08_np(old(mapper).state, final(mapper).state, k, None, mentioned(old(mapper).state.active_mappings@, k)),
     //@ C19 | bookkeeping equals the fold of the emitted events; no redundant press or release
     apply(held(old(mapper).state), res.events@) == Some(held(final(mapper).state)),
     //@ C01 C02 C09 | effect of the call on the list of keys considered pressed
@@ -2312,7 +2386,7 @@ fn newly_press(mapper: &mut Mapper, k: KeyCode) -> (res: StepResult)
     np_origin(final(mapper).state, old(mapper).state, group(old(mapper).layout, k)),
     j3b(old(mapper).layout, old(mapper).state) && j5(old(mapper).layout, old(mapper).state) ==> j3b(final(mapper).layout, final(mapper).state) && j5(final(mapper).layout, final(mapper).state),
   { //@ | body
-  hide(j4); hide(j6); hide(nonempty_from); hide(from_in); hide(am_sub); hide(sup); hide(np_origin); hide(c03_fire); hide(c07_fire); hide(mentioned); hide(ip_kept);
+  hide(j4); hide(j6); hide(nonempty_from); hide(from_in); hide(am_sub); hide(sup); hide(np_origin); hide(c03_fire); hide(c07_fire); hide(mentioned); hide(ip_kept); hide(c08_np); hide(c08_anm);
   let mappings = &mapper.layout.mappings;
   let mut state = &mut mapper.state;
   
@@ -2382,6 +2456,8 @@ fn newly_press(mapper: &mut Mapper, k: KeyCode) -> (res: StepResult)
         //@ C02 C05 C08 | origin of mappings in effect / absorbed keys
         any_hit ==> np_origin(*state, st0, g),
         any_hit ==> ip_kept(*state, st0),
+        //@ C08 | absorbed keys after the firing
+        any_hit ==> exists|i: int| is_fired(g, st0, k, i) && c08_pre(st0, *state, k, #[trigger] g[i]),
         //@  | frame / auxiliary
         should_absorb ==> absorbed_keys@ == ab1,
         !should_absorb ==> (absorbed_keys@.len() == 0 && at1 == Some(k)),
@@ -2438,16 +2514,17 @@ fn newly_press(mapper: &mut Mapper, k: KeyCode) -> (res: StepResult)
         }
       }
       if is_supported(&mapping.from, &state.input_pressed_keys, &absorbed_keys, &k) {
-        let ghost hm0 = held(*state); let ghost e0 = res.events@;
+        let ghost hm0 = held(*state); let ghost e0 = res.events@; let ghost s_pre_anm = *state;
         res.append(add_new_mapping(&mut state, &k, &mapping));
-        proof { let c = choose|c: Seq<Event>| res.events@ == e0 + c && apply(hm0, c) == Some(held(*state)) && c03_fire(*mapping, c, held(*state)) && c07_fire(*mapping, held(*state)); assert(e0.len() == 0); assert(e0 =~= Seq::<Event>::empty()); assert(e0 + c =~= c);
+        proof { let c = choose|c: Seq<Event>| res.events@ == e0 + c && apply(hm0, c) == Some(held(*state)) && c03_fire(*mapping, c, held(*state)) && c07_fire(*mapping, held(*state)) && c08_anm(s_pre_anm, *state, k, *mapping); assert(e0.len() == 0); assert(e0 =~= Seq::<Event>::empty()); assert(e0 + c =~= c);
           assert forall|f: KeyCode| #[trigger] state.active_mappings@.last().from@.contains(f) implies f == k || state.input_pressed_keys@.contains(f) by {
             let j = choose|j: int| 0 <= j < mapping.from@.len() && mapping.from@[j] == f;
             assert((old(mapper).state.input_pressed_keys@.contains(mapping.from@[j]) && !absorbed_keys@.contains(mapping.from@[j])) || mapping.from@[j] == k);
           }
         }
         proof { let i = mappings@.len() - 1 - it.index@; assert(is_fired(g, st0, k, i));
-          lemma_np_origin_hit(*state, st0, ab1, g, i); lemma_ip_kept_hit(*state, st0, ab1, k); }
+          lemma_np_origin_hit(*state, st0, ab1, g, i); lemma_ip_kept_hit(*state, st0, ab1, k);
+          reveal(c08_anm); lemma_c08_pre(st0, s_pre_anm, *state, k, g[i]); }
         any_hit = true;
         break;
       }
@@ -2470,7 +2547,7 @@ fn newly_press(mapper: &mut Mapper, k: KeyCode) -> (res: StepResult)
         !any_hit ==> no_mention_upto(state.active_mappings@, it.index@ as int, k),
         np_origin(*state, st0, g), ip_kept(*state, st0),
         //@ C03 C05 | nothing has been emitted and no mapping was touched while looking for a mapping in effect that mentions the key
-        res.events@.len() == 0, state.active_mappings@ == st0.active_mappings@,
+        res.events@.len() == 0, state.active_mappings@ == st0.active_mappings@, state.mapped_absorbed_keys@ == ab1, state.absorbing_trigger == at1,
         //@ C19 | bookkeeping equals the fold of the emitted events; no redundant press or release
         wf(*state),
         apply(h0, res.events@) == Some(held(*state)),
@@ -2527,7 +2604,7 @@ fn newly_press(mapper: &mut Mapper, k: KeyCode) -> (res: StepResult)
         res.events.append(&mut release_absorbed_keys(&mut state));
         proof { let c = choose|c: Seq<Event>| res.events@ == e1 + c && apply(hm1, c) == Some(held(*state)); lemma_apply_append(h0, e1, c);
           lemma_nonempty_sub(state.active_mappings@, am_pre);
-          lemma_nm_sub(state.active_mappings@, am_pre, k); lemma_np_origin_shrink(s_c, *state, st0, g); lemma_ip_kept_rak(s_c, *state, st0); }
+          lemma_nm_sub(state.active_mappings@, am_pre, k); lemma_np_origin_shrink(s_c, *state, st0, g); lemma_ip_kept_rak(s_c, *state, st0); lemma_c08_gone_rak(st0, s_c, *state, k); }
       }
       
       let ghost e2 = res.events@; let ghost pt2 = state.pass_through_keys@; let ghost s_b = *state;
@@ -2539,7 +2616,8 @@ fn newly_press(mapper: &mut Mapper, k: KeyCode) -> (res: StepResult)
       state.pass_through_keys.push(k);
       proof { assert(res.events@.drop_last() =~= e2); lemma_push_set(pt2, k); lemma_push_nodup(pt2, k); lemma_push_contains(pt2, k);
         assert(held(*state) =~= (pt2.to_set().union(state.mapped_output_keys@.to_set())).insert(k));
-        lemma_pass_key(s_b, *state, k); lemma_am_sub_refl(s_b.active_mappings@); lemma_np_origin_shrink(s_b, *state, st0, g); lemma_ip_kept_eq(s_b, *state, st0); }
+        lemma_pass_key(s_b, *state, k); lemma_am_sub_refl(s_b.active_mappings@); lemma_np_origin_shrink(s_b, *state, st0, g); lemma_ip_kept_eq(s_b, *state, st0);
+        if !is_mod(k) { lemma_c08_gone_push(st0, s_b, *state, k); } }
     }
   }
   
@@ -2547,6 +2625,10 @@ fn newly_press(mapper: &mut Mapper, k: KeyCode) -> (res: StepResult)
   let ghost st_pre = *state;
   state.input_pressed_keys.push(k);
   proof { lemma_push_contains(ip0, k);
+    if hit1 { lemma_c08_final_hit(st0, st_pre, *state, k, g); }
+    else if any_hit { lemma_c08_final_keep(st0, st_pre, *state, k, true); }
+    else if is_mod(k) { lemma_c08_final_keep(st0, st_pre, *state, k, false); }
+    else { lemma_c08_final_clear(st0, st_pre, *state, k); }
     lemma_press_ip(st_pre, *state, k); lemma_am_sub_refl(st_pre.active_mappings@); lemma_np_origin_shrink(st_pre, *state, st0, g); lemma_ip_kept_push(st_pre, *state, st0, k);
     if j3b(old(mapper).layout, st0) && j5(old(mapper).layout, st0) { lemma_origin_press(old(mapper).layout, st0, *state, k); }
     assert(j3(*state)) by {
